@@ -83,10 +83,37 @@ def run_verus_part(prop, seed):
     return {"undecided": und, "fails": fails, "r": r}
 
 
+R12 = os.path.join(ROOT, "replay12")
+
+
+def run_native_search(prop):
+    """bounded stand-in / witness search on the real crate built with hashable-value and every optional value type (replay12)"""
+    if not os.path.exists(os.path.join(R12, "Cargo.lock")):
+        shutil.copy("/repo/Cargo.lock", os.path.join(R12, "Cargo.lock"))
+    try:
+        b = subprocess.run(["cargo", "build", "--release", "--offline", "-q"], cwd=R12, capture_output=True, text=True, timeout=900, env=ENV)
+        if b.returncode != 0:
+            return {"ok": False, "note": "replay12 did not build: " + b.stderr[-300:], "witnesses": [], "cases": 0}
+        r = subprocess.run([os.path.join(R12, "target", "release", "vreplay12"), prop], capture_output=True, text=True, timeout=300)
+    except subprocess.TimeoutExpired:
+        return {"ok": False, "note": "replay12 timed out", "witnesses": [], "cases": 0}
+    ws = []
+    for ln in r.stdout.splitlines():
+        if ln.startswith("WITNESS "):
+            try:
+                ws.append(json.loads(ln[8:]))
+            except Exception:
+                pass
+    m = re.search(r"CASES (\d+)", r.stdout)
+    return {"ok": True, "note": "", "witnesses": ws, "cases": int(m.group(1)) if m else 0}
+
+
 def check(prop, tier, seed, P):
     t0 = time.time()
     import concurrent.futures as cf
-    vfut = cf.ThreadPoolExecutor(max_workers=1).submit(run_verus_part, prop, seed)
+    pool = cf.ThreadPoolExecutor(max_workers=2)
+    vfut = pool.submit(run_verus_part, prop, seed)
+    nfut = pool.submit(run_native_search, prop)
     if not os.path.exists(os.path.join(KDIR, "Cargo.lock")):
         shutil.copy("/repo/Cargo.lock", os.path.join(KDIR, "Cargo.lock"))
     hs = harnesses()
@@ -167,6 +194,21 @@ def check(prop, tier, seed, P):
         violations.append({"harness": "verus:" + obl, "config": "unit value", "features": ""})
         vio_out.append(({"harness": "verus obligation " + obl, "config": "unit value"}, path, False))
     n_kani_viol = len(violations) - len(vp["fails"])
+    # the native search: gives the failed Verus obligations their concrete input, and stands in (bounded) for what no proof covers
+    ns = nfut.result()
+    native_note = "bounded stand-in on the real crate (replay12: hashable-value + every optional value type; sample values of every type incl. Json null / NaN / +-0 / empty strings, every other variant as mismatch, value tuples of every shape): %d cases, %d witness(es)%s" % (ns["cases"], len(ns["witnesses"]), (" ; " + ns["note"]) if ns["note"] else "")
+    if ns["witnesses"]:
+        w0 = ns["witnesses"][0]
+        path = os.path.join(ROOT, "replay", "out", "%s-n1.json" % prop)
+        json.dump({"property": prop, "obligation": "bounded search on the real crate (replay12)", "input": w0.get("input"), "observed": w0.get("observed"), "expected": w0.get("expected"), "all_witnesses": ns["witnesses"][:20],
+                   "note": "found by the native search over sample values of every value type; ./check %s --replay re-runs the check on the current tree" % prop}, open(path, "w"), indent=1)
+        # attach the concrete input to the Verus failures (they then carry a failing input), or report it on its own
+        if vio_out and not any(h for _, _, h in vio_out):
+            vio_out = [(v, path, True) for v, _, _ in vio_out]
+        else:
+            violations.append({"harness": "native search: %s -> %s" % (w0.get("input"), w0.get("observed")), "config": "replay12", "features": ""})
+            vio_out.append(({"harness": "verus/native: bounded search on the real crate: input=%r observed=%r expected=%r" % (w0.get("input"), w0.get("observed"), w0.get("expected")), "config": "replay12"}, path, True))
+        n_kani_viol = min(n_kani_viol, len(violations))
     for i, v in enumerate(violations[:n_kani_viol]):
         # concrete counterexample from CBMC, as a Rust unit test (concrete playback)
         short = v["harness"].split("::")[-1]
@@ -202,6 +244,7 @@ def check(prop, tier, seed, P):
             "trusted_base": P.get("trusted_base", []),
             "samples": [{"harness": n} for n in names_all[:5]],
             "solver_time_s": round(sum(r["parsed"]["vtime"] for r in results), 1),
+            "bounded_checks": [native_note],
             "undecided": undecided, "failed_obligations": [v["harness"] for v in violations],
         },
         "assumptions": P.get("assumptions", []), "wall_s": round(wall, 2), "violations": len(violations),
